@@ -37,6 +37,7 @@ PROPS["C14"] = {
         rapid("seq", "c14", "TestSeqModel", 20000, 250000, shards=(1, 8)),
         plain("exh", "c14", "TestSeqExhaustive"),
         rapid("lin", "c14", "TestConcurrentLin", 1500, 5000, shards=(2, 8)),
+        rapid("lenb", "c14", "TestLenBounds", 150, 1500, shards=(2, 8)),
         fuzz("fuzz", "c14", "FuzzRing", 60),
     ],
 }
